@@ -98,6 +98,12 @@ def generate(ctx):
         raise Untranslatable("complex_center_crop: start / size expressions differ between axes or ranks: %s" % sorted(forms), None, path)
     starts, sizes = forms.pop()
     out += "Definition ccc_start (n m : Z) : Z := %s.\nDefinition ccc_size (n m : Z) : Z := %s.\n" % (starts, sizes)
+    # the condition under which complex_center_crop rejects its arguments (rank 4, crop over axes 1 and 2, both crop sizes given)
+    d = S("d0")
+    attrs = {(d, "shape"): ("tuple", tuple(S("n%d" % i) for i in range(4))), (d, "ndim"): X.const(4)}
+    t, _n = X.run_function(tree, path, "complex_center_crop", args={"data_list": ("list", (d,)), "crop_shape": ("tuple", (S("m0"), S("m1"))), "offset": X.const(1), "contiguous": X.const(False)}, opaque={"crop_to_bbox"}, attrs=attrs, callhooks=hooks, assume=[(S("m0"), True), (S("m1"), True)])
+    lm = {S("n1"): "na", S("n2"): "nb", S("m0"): "ma", S("m1"): "mb"}
+    out += "Definition ccc_raises (na nb ma mb : Z) : bool := %s.\n" % X.Emit(lambda x: lm.get(x), path).raises(X.drop_do(t))
     return [pg.write_gen(ctx, "C10_gen", out)]
 
 
